@@ -50,6 +50,11 @@ func freshSim(p ctlsim.Params, objs []*world.Obj) (*ctlsim.Sim, []ctlsim.StepInf
 // histRun executes a history; after is called after every batch (batch index,
 // the steps of that batch). Returning a failure stops the run.
 func histRun(c HistCase, after func(s *ctlsim.Sim, batch int, steps []ctlsim.StepInfo) *Failure) (f *Failure) {
+	return histRun2(c, nil, after)
+}
+
+// histRun2 additionally calls before(s, batch) ahead of every batch (fault plans).
+func histRun2(c HistCase, before func(s *ctlsim.Sim, batch int), after func(s *ctlsim.Sim, batch int, steps []ctlsim.StepInfo) *Failure) (f *Failure) {
 	s, err := ctlsim.New(c.Params)
 	if err != nil {
 		panic(err)
@@ -68,6 +73,9 @@ func histRun(c HistCase, after func(s *ctlsim.Sim, batch int, steps []ctlsim.Ste
 			split = c.Split[i]
 		}
 		var steps []ctlsim.StepInfo
+		if before != nil {
+			before(s, i)
+		}
 		if split < 0 {
 			if err := s.Apply(ops); err != nil {
 				panic(fmt.Sprintf("batch %d: %v", i, err))
